@@ -198,11 +198,21 @@ def check(src, rep):
         def oracle2(args, kw):
             k_ = turn["k"]
             turn["k"] += 1
-            return list(blocks[min(k_, 1)])
+            return list(blocks[min(k_, len(blocks) - 1)])
+        # (third block: the address of the first one again, now without a unit - what was learnt about an address must not be reused for another data set)
+        blocks.append([dataset(addr_of(known), [(VAL2, None)])])
         A2.func_hooks[(MOD, pc.node.name)] = oracle2
         r1 = A2.apply(dc, [PAY])
         snap1 = dict(r1[1]) if r1[0] == "value" and isinstance(r1[1], dict) else None
         r2 = A2.apply(dc, [PAY])
+        r3 = A2.apply(dc, [PAY]) if r2[0] == "value" else r2
+        if r3[0] in ("undecided", "branch"):
+            r2 = r3
+        elif r2[0] == "value" and (r3[0] != "value" or not isinstance(r3[1], dict) or r3[1] != {name_map[known]: VAL2}):
+            vio("R3", "history-dependent", "the result of a decode depends on blocks decoded before it (state kept between calls, e.g. a per-address cache): a data set is decoded with the unit "
+                "or name remembered from an earlier data set with the same address", line0,
+                f"first block {addr_of(known)}({VAL!r}*kWh); third block {addr_of(known)}({VAL2!r}) -> {r3[1] if r3[0] == 'value' else r3!r}"[:300])
+            bad += 1
         if r1[0] in ("undecided", "branch") or r2[0] in ("undecided", "branch"):
             rep.undecide(f"R3 two consecutive decodes are outside the interpreted subset: {(r1 if r1[0] != 'value' else r2)[1]!r}"[:300])
             bad += 1
@@ -326,7 +336,8 @@ def check(src, rep):
             return ("value", [(d_.attrs.get("address"), [shape_value(v_) for v_ in d_.attrs.get("values", [])]) if isinstance(d_, AObj) else d_ for d_ in r_[1]])
         return ("value", shape_value(r_[1]))
     okv = True
-    for text, want_v in (("1.5*kWh", ("value", ("1.5", "kWh"))), ("0123", ("value", ("0123", None))), ("*V", ("value", ("", "V"))), ("1*2*3", ("raise", "ValueError"))):
+    for text, want_v in (("1.5*kWh", ("value", ("1.5", "kWh"))), ("0123", ("value", ("0123", None))), ("*V", ("value", ("", "V"))), ("1*2*3", ("raise", "ValueError")),
+                         (" METER OK ", ("value", (" METER OK ", None))), ("LGZ 0042  ", ("value", ("LGZ 0042  ", None))), ("1.5 * kWh", ("value", ("1.5 ", " kWh")))):
         r_ = A6.apply(pv, [Opaque(f"class {MOD}.DataSetValue"), text]) if pv.kind == "classmethod" else A6.apply(pv, [text])
         if r_[0] in ("undecided", "branch"):
             rep.undecide(f"R6 DataSetValue.parse is outside the interpreted subset: {r_[1]!r}")
@@ -334,7 +345,7 @@ def check(src, rep):
             break
         if shape(r_) != want_v:
             okv = False
-            rep.violation("R6", "dlde.DataSetValue.parse", "value-unit-split", "a value is not split into (value, unit) at '*'", file, pv.node.lineno, witness=f"parse({text!r}) gives {shape(r_)!r}, expected {want_v!r}"[:200])
+            rep.violation("R6", "dlde.DataSetValue.parse", "value-unit-split", "a value is not split into (value, unit) at '*' with both parts verbatim", file, pv.node.lineno, witness=f"parse({text!r}) gives {shape(r_)!r}, expected {want_v!r}"[:200])
             break
     if okv:
         rep.ok("R6", "value*unit", "value and unit are the parts before and after the single '*' (class representatives through the interpreter)")
